@@ -33,6 +33,7 @@ TEMPLATES = {
     'untyped-in-list': ("start::{p}Doc: sections:{{section}} $ ;\n\nsection::{p}Section: 'a' entries:{{entry}} ;\n\nentry: key:item ':' value:[item] ;\n\nitem::{p}Item: v:/[b]/ ;\n",
                         ['a', 'b', ':', ' ']),
     'field-named-exp': ("start::{p}Prog: body:{{stmt}} $ ;\n\nstmt::{p}Ret: 'a' exp:[e] cond:[';' e] ;\n\ne::{p}E: v:/b/ ;\n", ['a', 'b', ';', ' ']),
+    'typed-over-untyped-dict': ("start::{p}Doc: body:{{stmt}} $ ;\n\nstmt::{p}Stmt: 'a' @:assign | assign ;\n\nassign: k:/b/ ':' v:/b/ ;\n", ['a', 'b', ':', ' ']),
     'untyped-between': ("start::{p}Doc: g:group $ ;\n\ngroup: a:item b:[item] ;\n\nitem::{p}Item: v:/[ab]/ ;\n", ['a', 'b', ' ']),
 }
 
@@ -79,6 +80,12 @@ def iso(m, where, ref, node, path='$'):
             pub = set(node.__pub__().keys()) if hasattr(node, '__pub__') else set()
             attrs = {k for k in keys if hasattr(node, k)}
             if attrs != keys:
+                held = getattr(node, 'ast', None)
+                if not attrs and isinstance(held, dict) and {k for k in held if 'parseinfo' not in k} == keys:
+                    # recorded finding: a typed rule without named elements of its own whose value is the dict of an
+                    # untyped rule: synthesized classes turn the dict into attributes, generated classes keep it in .ast
+                    m.violation('iso/typed-rule-over-dict-value/synthesized-and-generated-classes-differ', at=path, cls=tname, **where)
+                    return
                 m.violation('iso/named-element-missing-as-attribute', at=path, cls=tname, missing=sorted(keys - attrs), **where)
             extra = pub - keys - {'ast'}
             if extra:
